@@ -131,3 +131,15 @@ package tracing
 //@   loop 2 range traces
 //@     invariant count(Call, code("tracing|ISenderHandle.Done")) == old(count(Call, code("tracing|ISenderHandle.Done")))
 //@     invariant countOn(Trace, out) == atentry(2, countOn(Trace, out)) + rk2
+
+// Creating a tracer or a relay seen from a caller that only wires them up: opaque events (their goroutines are
+// under their own contracts above).
+//@ func NewTracer
+//@   assumed
+//@   flag emits opaque
+//@   flag allocs
+//@   ensures tag(result) != 0
+//@ func NewRelay
+//@   assumed
+//@   flag emits opaque
+//@   flag allocs
